@@ -28,6 +28,9 @@ out = ['# Breaking changes the checks are run against', '',
        '| change | property | repo tests with the change | result | violations reported (first two) | wall s |',
        '|---|---|---|---|---|---|']
 NOTES = {
+    'revert-e606767-negative-monthday-beyond-month':
+        'needs BYMONTHDAY=-30/-31 meeting a month too short for it and a round trip from exactly the bogus occurrence; '
+        'found by the thorough C05RT sweep with seed 303 (34 000 runs), not within a 65 s run',
     'revert-6c03b71-hijri-table-read-before-start':
         'needs a tabulated Hijri rule of a particular shape (e.g. MONTHLY;INTERVAL=3;BYMONTHDAY=-24) consumed past the end of the table (k >= 128); '
         'found by a 400 s run of the C05RT stage, caught once in three 65 s runs',
